@@ -434,3 +434,4 @@ Proof.
   - rewrite map_map. simpl. rewrite map_id. exact Hnd.
   - apply in_map_iff. exists v. split; [reflexivity | exact Hin].
 Qed.
+
